@@ -354,4 +354,6 @@ func c09Gate(c *Ctx) {
 		})
 }
 
-func itoa(i int64) string { return strings.TrimSpace(strings.Replace(strings.Repeat(" ", 0)+fmtInt(i), " ", "", -1)) }
+func itoa(i int64) string {
+	return strings.TrimSpace(strings.Replace(strings.Repeat(" ", 0)+fmtInt(i), " ", "", -1))
+}
